@@ -116,6 +116,19 @@ def cases(rng, tier):
         body.insert(rng.randrange(len(body) + 1), bad)
         lines += body + ["@compute @workgroup_size(1) fn main() {}"]
         out.append({"wgsl": "\n".join(lines) + "\n", "family": "unsupported_resource", "opts": {}, "truth": truth_of(decls)})
+    # two variables sharing one slot, used by entry points of different stages: the generator rejects the module; if a
+    # module comes back, every variable still has to have its field and its entry
+    for i in range({"quick": 4, "search": 8, "thorough": 16}[tier]):
+        g_, b_ = rng.choice([(0, 0), (0, 3), (1, 1)])
+        lines = ["struct U { a: vec4<f32>, b: f32 }"]
+        if g_ == 1:
+            lines.append("@group(0) @binding(0) var<uniform> base: U;")
+        lines.append("@group(%d) @binding(%d) var<uniform> first: vec4<f32>;" % (g_, b_))
+        lines.append("@group(%d) @binding(%d) var<uniform> second: vec4<f32>;" % (g_, b_))
+        lines.append("@vertex fn vs_main() -> @builtin(position) vec4<f32> { return first; }")
+        lines.append("@fragment fn fs_main() -> @location(0) vec4<f32> { return second; }")
+        out.append({"wgsl": "\n".join(lines) + "\n", "family": "shared_slot_disjoint_stages", "opts": {"validate": i % 2 == 0},
+                    "truth": [(0, [("base", "RKBuffer", 0)])] if g_ == 1 else []})
     # shaders generated one after the other whose groups have the same variable names, types and order but different @binding
     # indices (a camera / light / material group shared by many shaders): each module carries ITS indices
     for rep in range({"quick": 2, "search": 3, "thorough": 6}[tier]):
@@ -179,6 +192,8 @@ def verdict_expr(c, r, ir, real):
         ob = "true" if ok else "false"
         if obs.usable(r):
             ob += " && " + coq_obs_clause(r, real)
+    if c["family"] == "shared_slot_disjoint_stages" and r.get("result") == "err":
+        return '[wf %s; agree_res agree_C04 (gen %s ""%%string None %s) %s; true]' % (ir, ir, coq_options(c["opts"]), real)
     if c["family"] == "unsupported_resource" and r.get("result") == "panic":
         # not an accepted shader: the property says nothing (the model must agree that the generator gives up)
         return '[wf %s; agree_res agree_C04 (gen %s ""%%string None %s) %s; true]' % (ir, ir, coq_options(c["opts"]), real)
